@@ -948,7 +948,7 @@ func regionCurved(c *hc.Ctx) {
 			c.Count("curved:skip-undecodable")
 			continue
 		}
-		band := 2*tol + 2*maxChordErr + snapMargin
+		band := tol + 2*maxChordErr + snapMargin // one tolerance: the library flattens the outline once (since d60d0c1, f749928)
 		lo, hi := hw-band, hw+band
 		suffix := ""
 		if segs, err := hc.Decode(P.Data()); err == nil {
@@ -1185,7 +1185,7 @@ func offsetCurved(c *hc.Ctx) {
 			continue
 		}
 		pls := []polyline{{pts: v, closed: true}}
-		band := 2*tol + 2*chordErr + snapMargin
+		band := tol + 2*chordErr + snapMargin // one tolerance: the library flattens the outline once (since d60d0c1, f749928)
 		lo, hi := ad-band, ad+band
 		start := hc.P2{X: P.Data()[1], Y: P.Data()[2]}
 		pts := probePoints(c, pls, res, ad, band, 36, strokeStyle{1, 1, 4})
